@@ -334,6 +334,34 @@ def r4_dropped(ctx):
                       f"ballot filter is {ks}; documented: keep iff weight > 0")
     if sites < 3:
         ctx.violated(f, f.node, "remove_cand exhausted-ballot filters", f"{sites} filter sites (3 return shapes expected)")
+    # every ballot goes through the rebuild: each path through the per-ballot loop stores the ballot's slot once.  A path
+    # that skips the rebuild must establish that the ballot is not empty (an empty ballot is exhausted: weight 0)
+    from vk.paths import PathCounter
+    slot_loops = []
+    for lp in astx.walk_own(f.node):
+        if isinstance(lp, ast.For) and any(isinstance(x, ast.Assign) and isinstance(x.targets[0], ast.Subscript) and astx.u(x.targets[0].value) == "scrubbed_ballots"
+                                           for x in ast.walk(ast.Module(body=lp.body, type_ignores=[]))):
+            slot_loops.append(lp)
+    if len(slot_loops) != 1:
+        ctx.violated(f, f.node, "remove_cand: one per-ballot rebuild loop", f"{len(slot_loops)} loops store rebuilt ballots")
+    else:
+        lp = slot_loops[0]
+        bv = astx.assigned_names(lp.target)[-1]
+        fake = ast.parse("def _it():\n    pass\n").body[0]
+        fake.body = lp.body
+        exits = PathCounter(fake, lambda x: isinstance(x, ast.Assign) and isinstance(x.targets[0], ast.Subscript) and astx.u(x.targets[0].value) == "scrubbed_ballots").run()
+        Nl = Normalizer(f.node, inline=False)
+        bad = []
+        for e in exits:
+            if e.kind in ("fall-off", "continue") and e.lo < 1:
+                lits = literals(Nl.conj(e.conds))
+                if not ({f"truthy({bv}.ranking)", f"truthy({bv}.scores)"} & lits):
+                    bad.append((e, lits))
+            elif e.kind in ("break", "return"):
+                bad.append((e, set()))
+        ctx.check(not bad and bool(exits), f, (bad[0][0].node if bad and bad[0][0].node is not None else lp), "remove_cand: every ballot is rebuilt (or provably non-empty when skipped)", f"{len(exits)} paths through the loop body",
+                  f"a path through the per-ballot loop ({bad[0][0].kind if bad else ''} at line {getattr(bad[0][0].node, 'lineno', '?') if bad else '?'}, under {sorted(bad[0][1]) if bad else ''}) leaves the ballot's slot as pre-filled: "
+                  "an empty ballot keeps its weight instead of being exhausted, or later ballots are never rebuilt")
     # leave_zero_weight_ballots keeps everything
     keeps = [n for n in astx.walk_own(f.node) if isinstance(n, ast.Call) and astx.call_name(n) == "PreferenceProfile"
              and any(k.arg == "ballots" and astx.u(k.value) == "tuple(scrubbed_ballots)" for k in n.keywords)]
@@ -443,7 +471,15 @@ RULES = [
 
 UT = "src/votekit/utils.py"
 CL = "src/votekit/cleaning.py"
+_RC_SKIP = """    scrubbed_ballots = list(ballots)
+    for i, ballot in enumerate(ballots):
+        if %s:
+            continue
+
+"""
+_RC_REGION = ("    scrubbed_ballots = [Ballot()] * len(ballots)\n", "        new_ranking = []\n        new_scores = {}\n        if ballot.ranking:\n            for s in ballot.ranking:\n                new_s = []")
 FAULTS = [
+    ("untouched ballots skipped, blank ones too (seeded C12-r2-1)", [(UT, _RC_REGION, _RC_SKIP % "set(removed).isdisjoint({c for s in ballot.ranking or () for c in s}.union(ballot.scores or ()))")], "C12.R4"),
     ("remove keeps the removed", [(UT, "                    if c not in removed:\n                        new_s.append(c)", "                    if c in removed:\n                        new_s.append(c)")], "C12.R1"),
     ("scores keep the removed", [(UT, "c: score for c, score in ballot.scores.items() if c not in removed", "c: score for c, score in ballot.scores.items() if c in removed")], "C12.R1"),
     ("sorted new ranking", [(UT, "                ranking=tuple(new_ranking), weight=ballot.weight, scores=new_scores", "                ranking=tuple(sorted(new_ranking, key=len)), weight=ballot.weight, scores=new_scores")], "C12.R2"),
@@ -470,6 +506,7 @@ FAULTS += [
     ("dedup compares with last kept only", [(CL, "            if cand in ranking and cand not in dedup_ranking:", "            if cand in ranking and cand not in dedup_ranking[-1:]:")], "C12.R1"),
 ]
 BENIGN = [
+    ("untouched ranked ballots skipped", [(UT, _RC_REGION, _RC_SKIP % "ballot.ranking and not ballot.scores and all(c not in removed for s in ballot.ranking for c in s)")]),
     ("comprehension instead of loop", [(UT, "                for c in s:\n                    if c not in removed:\n                        new_s.append(c)\n", "                new_s = [c for c in s if not (c in removed)]\n")]),
     ("weight via Fraction()", [(UT, "                ranking=tuple(new_ranking), weight=ballot.weight\n            )", "                ranking=tuple(new_ranking), weight=Fraction(ballot.weight)\n            )")]),
     ("filter as not <= 0", [(UT, "            ballots=tuple([b for b in scrubbed_ballots if b.weight > 0]),\n            candidates=tuple(", "            ballots=tuple([b for b in scrubbed_ballots if not b.weight <= 0]),\n            candidates=tuple(")]),
